@@ -103,6 +103,7 @@ def main():
         print(f'{os.path.basename(d)}: validation {"ok" if ok else "NOT ok"}: {val}', flush=True)
         if ok:
             env = dict(os.environ)
+            env['HV_OUT_DIR'] = wt + '_out'
             if a.inplace:
                 sh(['git', '-C', wt, 'checkout', '--', '.'])
                 rc, out = sh(['git', '-C', '/repo', 'apply', os.path.join(d, 'patch.diff')])
@@ -126,6 +127,8 @@ def main():
             meta['missed_by'] = sorted(set(c for t in runs.values() for c, r in t.items() if r['exit'] == 0) - set(meta['detected_by']))
     finally:
         remove_worktree(wt)
+        import shutil
+        shutil.rmtree(wt + '_out', ignore_errors=True)
     with open(meta_path, 'w') as f:
         json.dump(meta, f, indent=1)
         f.write('\n')
